@@ -1,0 +1,17 @@
+//go:build verif
+
+package server
+
+// Contracts checked by /verif (gvc). This file contains comments only and is compiled only with -tags verif.
+// Property C18: malformed, oversized or hostile JSON-RPC requests produce error responses and never terminate the server.
+// Argument parsing runs before the per-call recover, so its index expressions must be in bounds for every request.
+
+//@ func parseArgumentArray(dec, types)
+//@   safety
+//@   loop 1
+//@     invariant 0 <= i
+
+//@ func parsePositionalArguments(rawArgs, types)
+//@   safety
+//@   loop 1
+//@     invariant 0 <= i
